@@ -83,6 +83,10 @@ async def do_op(sim, request):
         items = [awaitable(item[1]) if item[0] == "a" else f"V{item[1]}@{rid}" for item in op["items"]]
         return await gather_if_necessary(items)
     if kind == "rc_eval":
+        if op.get("as_tree"):  # the documented alternative: an already parsed tree instead of the string
+            from ahbicht.expressions.condition_expression_parser import parse_condition_expression_to_tree
+
+            return await requirement_constraint_evaluation(parse_condition_expression_to_tree(op["expr"]))
         return await requirement_constraint_evaluation(op["expr"])
     if kind == "fc_eval":
         return await format_constraint_evaluation(op["expr"])
@@ -119,7 +123,18 @@ async def do_op(sim, request):
             handed_out.append(body)
             CER.set(body)
 
-        flag, reason = await is_valid_expression(op["expr"], setter)
+        subject = op["expr"]
+        if op.get("as_tree"):
+            subject = await parse_expression_including_unresolved_subexpressions(op["expr"])
+        flag, reason = await is_valid_expression(subject, setter)
+        own = REQ.get().split("+")[0]
+        foreign_tags = sorted({t for t in TAG.findall(reason or "") if t != own})
+        if foreign_tags and sim.shared_violation is None:
+            sim.shared_violation = (
+                "isolation:valid-reason",
+                f"{own}: the reason returned by is_valid_expression({op['expr']!r}) quotes texts of {foreign_tags}: "
+                f"{reason!r}",
+            )
         contents = [dumps([b.get("requirement_constraints"), b.get("format_constraints")]) for b in handed_out]
         seen_tokens = sim.data_seen
         if len(contents) > 2 and len(set(contents)) == 1 and sim.shared_violation is None:
@@ -211,7 +226,7 @@ def _gen_op(rnd, rc, hints, fcs, packages, flavour="sim"):
         return {"op": "gather_mixed", "items": [[rnd.choice("av"), i] for i in range(n)]}
     if roll < 0.42:
         ast, _ = gen_valid(rnd, rnd.randint(1, 4), rc, hints, fcs)
-        op = {"op": "rc_eval", "ast": ast, "expr": render(ast, rnd, "wild")}
+        op = {"op": "rc_eval", "ast": ast, "expr": render(ast, rnd, "wild"), "as_tree": rnd.random() < 0.25}
         if rnd.random() < 0.15 and hints:
             # two things are missing, in two *sequential* stages (requirement constraints are evaluated before the
             # hints are fetched): whatever the schedule, the caller sees the first stage's error
@@ -223,6 +238,8 @@ def _gen_op(rnd, rc, hints, fcs, packages, flavour="sim"):
         return op
     if roll < 0.50:
         ast, _ = gen_valid(rnd, rnd.randint(1, 3), rc, hints, fcs, want=("nfc", "fc"))
+        if rnd.random() < 0.08:  # nothing to evaluate counts as fulfilled
+            return {"op": "fc_eval", "expr": rnd.choice([None, ""]), "text": rnd.choice([None, "x"])}
         return {"op": "fc_eval", "ast": ast, "expr": render(ast, rnd, "wild"), "text": rnd.choice([None, "x", "foo"])}
     if roll < 0.80:
         parts = gen_ahb_parts(rnd, rnd.randint(1, 3), rc, hints, fcs, packages, max_parts=4, allow_ub=bool(packages))
@@ -252,7 +269,8 @@ def _gen_op(rnd, rc, hints, fcs, packages, flavour="sim"):
         ast, _ = gen_valid(rnd, rnd.randint(1, 3), small_rc, hints, small_fc)
     indicator = rnd.choice(["Muss", "X", "Soll", "Kann"])
     return {"op": "valid", "parts": [(indicator.upper() if indicator != "X" else "X", ast)],
-            "expr": f"{indicator} {render(ast)}", "has_rc": any(k in small_rc for k in keys_of(ast))}
+            "expr": f"{indicator} {render(ast)}", "has_rc": any(k in small_rc for k in keys_of(ast)),
+            "as_tree": rnd.random() < 0.3}
 
 
 def generate(seed, tier="quick"):
@@ -311,6 +329,10 @@ def generate(seed, tier="quick"):
             follow_op = _gen_op(rnd, rc, hints, fcs, package_kinds, flavour)
             if not follow_op.get("drop") and not request["op"].get("drop"):
                 request["follow_ups"] = [{"op": follow_op, "cer": follow_cer, "peer_set": request.get("peer_set", 0)}]
+    validity_checks = [r for r in requests if r["op"]["op"] == "valid"]
+    for later in validity_checks[1:]:
+        if rnd.random() < 0.5:  # several callers ask about the very same expression
+            later["op"] = clone(validity_checks[0]["op"])
     for request in requests:
         if request["op"]["op"] == "valid" and not request.get("follow_ups") and rnd.random() < 0.5:
             # after the validity check the task goes on evaluating with ITS OWN data, which it does not set again
